@@ -484,8 +484,11 @@ long long c_delineate_flowpathlengths_in_catchment(long long nrows,
                 break;
 
             /* Compute distance between up and down cell */
-            diff = abs(*idxcell_down - *idxcell_up);
-            squaredist = diff == 1 || diff == ncols ? 1 : 2;
+            /* orthogonal step: same column, or adjacent cells of the same
+             * row (in a 2-column grid a diagonal step also has diff == 1) */
+            diff = llabs(*idxcell_down - *idxcell_up);
+            squaredist = diff == ncols || (diff == 1 &&
+                *idxcell_down/ncols == *idxcell_up/ncols) ? 1 : 2;
 
             /* Iterate */
             *idxcell_up = *idxcell_down;
@@ -498,8 +501,11 @@ long long c_delineate_flowpathlengths_in_catchment(long long nrows,
         if(ipath < nval && *idxcell_down >= 0)
         {
             /* Compute distance between up and down cell */
-            diff = abs(*idxcell_down - *idxcell_up);
-            squaredist = diff == 1 || diff == ncols ? 1 : 2;
+            /* orthogonal step: same column, or adjacent cells of the same
+             * row (in a 2-column grid a diagonal step also has diff == 1) */
+            diff = llabs(*idxcell_down - *idxcell_up);
+            squaredist = diff == ncols || (diff == 1 &&
+                *idxcell_down/ncols == *idxcell_up/ncols) ? 1 : 2;
             length += sqrt(squaredist);
         }
 
